@@ -416,7 +416,11 @@ func (t *tr) expr(e ast.Expr) string {
 		return t.expr(x.X)
 	case *ast.BasicLit:
 		if x.Kind == token.INT {
-			return x.Value
+			v, err := strconv.ParseInt(x.Value, 0, 64)
+			if err != nil {
+				t.fail(e, "integer literal")
+			}
+			return strconv.FormatInt(v, 10)
 		}
 	case *ast.Ident:
 		switch x.Name {
@@ -934,6 +938,11 @@ func main() {
 		{coq: "g_flag_toggle", fn: "cfgFlag.toggle", mode: "N", ret: "N", recvVar: "r",
 			calls:  map[string]string{"positive": "g_flag_positive"},
 			mcalls: map[string]string{"shift": "g_flag_shift", "unshift": "g_flag_unshift"}},
+		{coq: "g_cfg_valid", fn: "nodeConfig.valid", mode: "N", ret: "bool",
+			params: [][2]string{{"typ", "N"}}, exprMap: map[string]string{"r.isZero()": "false", "r.typ": "typ"}},
+		{coq: "g_cfg_positive", fn: "nodeConfig.positive", mode: "N", ret: "bool",
+			params:  [][2]string{{"typ", "N"}, {"opt", "N"}},
+			exprMap: map[string]string{"r.valid()": "(g_cfg_valid typ)", "r.opt.positive(x)": "(g_flag_positive opt v_x)"}},
 		{coq: "g_ulen", fn: "stack.ulen", mode: "Z", ret: "Z",
 			params: [][2]string{{"len", "Z"}}, exprMap: map[string]string{"r.len()": "len"}},
 		{coq: "g_isFull", fn: "stack.isFull", mode: "Z", ret: "bool",
